@@ -595,7 +595,8 @@ def zrank_recursion(rep, ex: Explorer, cls: str):
         kfacts = [(k, v) for k, v in p.decisions if k[0] == "cmp" and isinstance(k[2], tuple) and k[2][:1] == ("lin",) and all(t == kterm for t, _ in k[2][1][0])]
         rv = p.outcome[1] if not back else None
         recs = [ev for ev, Q in iter_events(p.events) if ev.kind == "recurse"]
-        for kv in range(0, 3):
+        from .. import depth as _depth
+        for kv in _depth.card_range():
             okk = True
             for key, val in kfacts:
                 lin = key[2][1]
